@@ -23,7 +23,7 @@ class Gen:
 
     def add(self, d, family, expect='accept', tags=()):
         if d.get('kind') == 'bitfield' and not d.get('unstructured'):
-            if d.get('debug') and d.get('default') is not None and self.rng_order.random() < 0.5:
+            if 'args_rev' not in d and d.get('debug') and d.get('default') is not None and self.rng_order.random() < 0.5:
                 d['args_rev'] = True
             if self.rng_order.random() < 0.06:
                 d['args_trailing_comma'] = True
@@ -492,6 +492,21 @@ class Gen:
         arr = [F(nm, u(2), [('r', 8 * k, 8 * k + 1)], count=2, stride=4) for k, nm in enumerate(['f', 'value', 'index', 'temp', 'result', 'mask'])]
         self.add({'kind': 'bitfield', 'name': self.name('S'), 'base': 64, 'default': {'form': 'lit', 'value': 5}, 'fields': arr}, 'F8', 'accept',
                  ['hygiene', 'array-field-names'])
+        # every combination of the options of bitfield(..): default as literal / named constant, `=` / legacy `:`, with debug
+        # before or after it
+        k = 0
+        for W in (16, 24, 128):
+            for form in ('lit', 'const'):
+                for rev in (False, True):
+                    for legacy in (False, True):
+                        k += 1
+                        d = {'kind': 'bitfield', 'name': self.name('S'), 'base': W, 'debug': True, 'args_rev': rev, 'legacy': legacy,
+                             'fields': [F('lo', u(4), [('r', 0, 3)]), F('flag', {'k': 'bool'}, [('s', W - 1)], acc='r')]}
+                        v = (0x5A5A5A5A5A5A5A5A5A5A5A5A5A5A5A5A >> (128 - W)) | (1 << (W - 1))
+                        d['default'] = {'form': 'lit', 'value': v, 'text': hex(v)} if form == 'lit' else \
+                            {'form': 'const', 'name': 'RESET_%d' % k, 'value': v}
+                        self.add(d, 'F8', 'accept', ['option-combination', form, 'debug-first' if rev else 'default-first',
+                                                     'legacy' if legacy else 'eq'])
         # `#[doc(hidden)]` and `#[doc = ..]` are doc attributes like any other: passed through, and the field still shows in Debug
         self.add({'kind': 'bitfield', 'name': self.name('S'), 'base': 16, 'doc': True, 'debug': True,
                   'fields': [dict(F('a', u(8), [('r', 0, 7)]), doc=True, doc_text='#[doc(hidden)]'),
